@@ -361,7 +361,7 @@ func runC10(c *explore.Ctx) {
 		forEachProfileDoc(c, s, "", func(d kitDoc) { c10Doc(c, s, d) })
 		s.WallS = time.Since(t0).Seconds()
 	}
-	n := c.Pick(5, 7)
+	n := c.Pick(5, 9)
 	s = c.Sub("type-blind", fmt.Sprintf("every type-blind document of ≤ %d tokens (unknown names of every kind: the suggestion lists) × every map-order policy", n),
 		"as above", "documents with at least one error")
 	if s != nil {
